@@ -32,10 +32,10 @@ EXPLANATION = (
 IMPORTS = ['model.Threshold']
 RULE = ("link directories for layouts of 0-2 steps (plain names incl. dots, dashes, UTF-8), thresholds -1..4, 0-4 pubkeys per step (some listed but not defined), "
         "certificate constraints none/allow-all/CN/organisation/root id, layout roots none/root/two roots, intermediate in layout / passed separately / missing; "
-        "0-6 files per step from a catalogue of 39 kinds: key-signed (authorised or not), tampered, unsigned, certificate-signed under intermediate / directly under root / "
+        "0-6 files per step from a catalogue of 40 kinds: key-signed (authorised or not), tampered, unsigned, certificate-signed under intermediate / directly under root / "
         "expired / foreign root / tampered, forged first signature, forged-id copies of a certificate link (F1), honest link copied under another name, garbage, wrong-shape JSON, "
         "layout as link, DSSE key-signed / tampered / unsigned / certificate-signed, double-signed, junk leading signature, link of another step name, short ids with multi-byte or invalid characters, directory, copies of key- and certificate-signed links whose keyid is re-spelt in upper/mixed case (stored under the re-spelt prefix), a second certificate for a genuine functionary's key issued by a foreign root or self-signed, certificates of a look-alike foreign PKI (CA with the subject DN of the layout's intermediate/root but another key, leaf for another key copying subject, SANs and SERIAL NUMBER of an honest leaf), stray files named with 9-64 characters of an honest functionary's key id (altered copy / garbage / verbatim copy) next to the honest link; "
-        "plus fixed witnesses of F1, F2 (key+certificate mixes, threshold 2-3), F14 (threshold <= 0, nothing countable), one functionary under case variants of its key id (threshold 2), and two-step layouts with certificate constraints where one step's link carries another certificate for the same key (whole-layout call, both step orders), look-alike certificates with the honest one in an earlier step / in the same step (one LoadLayoutCertificates result per whole-layout call, as InTotoVerify does), honest links exactly at the threshold each shadowed by a stray file with a longer key-id prefix. A further batch (fixed witnesses + n/5 random scenarios) runs in a CHILD PROCESS started with SSL_CERT_FILE=<a fresh foreign CA> and SSL_CERT_DIR=/nonexistent, so that the 'foreign root' of all foreign/rogue certificates is in that process's system trust store: layouts without root CAs x constraint roots ['*'] / [] x leaves of that CA (also layouts with roots): only layout roots authorise. Witness classes certificate-outside-validity-completes-threshold (threshold 2 = one valid functionary + a certificate functionary whose leaf expired 1 h / 24 h ago, is not yet valid, is valid under an expired intermediate, or expired together with its intermediate: rejected; valid twin accepted), uri-constraint-near-misses (constraint uris [spiffe://example.com/ci/release]; certificates of the layout's CA with that URI plus ?query, #fragment, userinfo@, %2F, upper-case host, trailing slash, longer path, other scheme: only the exact URI counts; two exact ones accepted) and upper-case-key-id-functionary (layout key id, pubkeys entry, signature keyid and file name spelt in UPPER / mixed case hex: the link is needed for the threshold and must be counted). Kind / witness class sigs-sharing-short-id: ONE link file whose signature list has 2-3 entries whose key ids all extend the file's short id — the honest functionary's valid entry first / middle / last, the others foreign (junk signature, or an outsider's valid signature relabelled to <short>+other hex); key and certificate functionaries; the FIRST matching entry decides under which id the link is loaded, so it counts iff the honest entry comes first. Kind cert-keyid-alias: a link of a certificate functionary signed with its own key and carrying its certificate, whose signature names the id of the SAME key computed with keyid_hash_algorithms ['sha256'] / ['sha512'] (computed independently: SHA-256 of the canonical key description), file named after that id: an alias is not another functionary. Witness classes cert-keyid-hash-alg-aliases (ONE functionary, 2-3 links under default / sha256 / sha512 ids, threshold 2 and 3: rejected), two-certificate-functionaries (accept-side twin, also with alias links around) and large-honest-link-17MiB (two cases per run: the threshold is met only if an honest link with 17 MiB of recorded stdout is counted; key route and certificate route; such files are stored gzip-compressed in the case). Kind borrowed-cert-plus-own-key-block: a link signed by an outsider key (never listed, no certificate) whose signature cert field holds an authorised functionary's certificate together with the outsider's PUBLIC or PRIVATE key block, in both orders, file named after the outsider's id: never counted. Witnesses threshold-minus-one (threshold 2..4 with exactly threshold-1 honest links). The full-verification observable is taken four times: InTotoVerify / InTotoVerifyWithDirectory with a nil parameter dictionary (V, VD) and with a non-empty dictionary of unused parameters (VP, VDP); same ground truth. All test inputs are PRODUCED without the library: links and layouts are signed with Go's crypto directly (lib.SignRaw over canonical bytes / PAE). Honest functionaries exist on rsa2048, rsa3072, ecdsa P-256/P-384/P-521 and ed25519 through both routes (pool keys and certificates alice/bob/carol/frank/grace/heidi) and both wrappers (witness all-key-kinds-both-routes: every one of them must count). Kind cert-with-bundled-intermediate: the signature's cert field holds leaf + intermediate CA while neither layout nor caller list the intermediate (alone; followed by a plain certificate under the same intermediate in a later step / the same step / a later call): nothing under it counts. The per-step calls of one repetition share ONE pair of pools (a call must leave nothing behind in them); the whole-layout call has its own. For all fixed witness scenarios (both processes; plus honest controls that must be accepted) the observable also contains the verdict of the FULL InTotoVerify and InTotoVerifyWithDirectory calls on a layout signed by an owner key (legacy and DSSE layouts alternate): no rules, inspections or sublayouts exist there, so the threshold stage decides. Every real call is repeated 24 times "
+        "plus fixed witnesses of F1, F2 (key+certificate mixes, threshold 2-3), F14 (threshold <= 0, nothing countable), one functionary under case variants of its key id (threshold 2), and two-step layouts with certificate constraints where one step's link carries another certificate for the same key (whole-layout call, both step orders), look-alike certificates with the honest one in an earlier step / in the same step (one LoadLayoutCertificates result per whole-layout call, as InTotoVerify does), honest links exactly at the threshold each shadowed by a stray file with a longer key-id prefix. A further batch (fixed witnesses + n/5 random scenarios) runs in a CHILD PROCESS started with SSL_CERT_FILE=<a fresh foreign CA> and SSL_CERT_DIR=/nonexistent, so that the 'foreign root' of all foreign/rogue certificates is in that process's system trust store: layouts without root CAs x constraint roots ['*'] / [] x leaves of that CA (also layouts with roots): only layout roots authorise. Kind unreadable-entry and witness class unreadable-entries-beside-honest-links: beside enough honest links for every step the directory holds entries matching the step's link glob that cannot be read as metadata — a symlink to itself, a symlink loop of two, a symlink to a directory, a dangling symlink, a directory, a FIFO, a unix socket node, an empty file, garbage (a mode-000 file when not running as root): the model sees them as (name, None); the honest links satisfy the threshold and exactly they are counted. Witness classes certificate-outside-validity-completes-threshold (threshold 2 = one valid functionary + a certificate functionary whose leaf expired 1 h / 24 h ago, is not yet valid, is valid under an expired intermediate, or expired together with its intermediate: rejected; valid twin accepted), uri-constraint-near-misses (constraint uris [spiffe://example.com/ci/release]; certificates of the layout's CA with that URI plus ?query, #fragment, userinfo@, %2F, upper-case host, trailing slash, longer path, other scheme: only the exact URI counts; two exact ones accepted) and upper-case-key-id-functionary (layout key id, pubkeys entry, signature keyid and file name spelt in UPPER / mixed case hex: the link is needed for the threshold and must be counted). Kind / witness class sigs-sharing-short-id: ONE link file whose signature list has 2-3 entries whose key ids all extend the file's short id — the honest functionary's valid entry first / middle / last, the others foreign (junk signature, or an outsider's valid signature relabelled to <short>+other hex); key and certificate functionaries; the FIRST matching entry decides under which id the link is loaded, so it counts iff the honest entry comes first. Kind cert-keyid-alias: a link of a certificate functionary signed with its own key and carrying its certificate, whose signature names the id of the SAME key computed with keyid_hash_algorithms ['sha256'] / ['sha512'] (computed independently: SHA-256 of the canonical key description), file named after that id: an alias is not another functionary. Witness classes cert-keyid-hash-alg-aliases (ONE functionary, 2-3 links under default / sha256 / sha512 ids, threshold 2 and 3: rejected), two-certificate-functionaries (accept-side twin, also with alias links around) and large-honest-link-17MiB (two cases per run: the threshold is met only if an honest link with 17 MiB of recorded stdout is counted; key route and certificate route; such files are stored gzip-compressed in the case). Kind borrowed-cert-plus-own-key-block: a link signed by an outsider key (never listed, no certificate) whose signature cert field holds an authorised functionary's certificate together with the outsider's PUBLIC or PRIVATE key block, in both orders, file named after the outsider's id: never counted. Witnesses threshold-minus-one (threshold 2..4 with exactly threshold-1 honest links). The full-verification observable is taken four times: InTotoVerify / InTotoVerifyWithDirectory with a nil parameter dictionary (V, VD) and with a non-empty dictionary of unused parameters (VP, VDP); same ground truth. All test inputs are PRODUCED without the library: links and layouts are signed with Go's crypto directly (lib.SignRaw over canonical bytes / PAE). Honest functionaries exist on rsa2048, rsa3072, ecdsa P-256/P-384/P-521 and ed25519 through both routes (pool keys and certificates alice/bob/carol/frank/grace/heidi) and both wrappers (witness all-key-kinds-both-routes: every one of them must count). Kind cert-with-bundled-intermediate: the signature's cert field holds leaf + intermediate CA while neither layout nor caller list the intermediate (alone; followed by a plain certificate under the same intermediate in a later step / the same step / a later call): nothing under it counts. The per-step calls of one repetition share ONE pair of pools (a call must leave nothing behind in them); the whole-layout call has its own. For all fixed witness scenarios (both processes; plus honest controls that must be accepted) the observable also contains the verdict of the FULL InTotoVerify and InTotoVerifyWithDirectory calls on a layout signed by an owner key (legacy and DSSE layouts alternate): no rules, inspections or sublayouts exist there, so the threshold stage decides. Every real call is repeated 24 times "
         "(Go randomises map order); differing outcomes are an observable. Oracle: per step, the set of honest authorised functionary ids by construction vs max(threshold,1); "
         "on acceptance the counted ids must be exactly that set. non-trivial = directory has at least one file; distinct = distinct input JSON")
 
